@@ -19,6 +19,7 @@ func runSubject(c *vlib.Case, s *subject) {
 
 func main() {
 	r := vlib.Start("C03", "exploration")
+	r.ScaleQuick(3) // quick tier: 3x the case counts written at the sections (still well under a minute)
 	r.Rule("a registry of solid constructors (2D/3D primitives, boolean/stack/mux combinators, transforms incl. toolbox squeezes, collider/SDF/metaball/polytope/profile/revolve/cross-section solids, toolbox parts, random expression trees of depth <= 5) is driven with seeded hostile parameters (arbitrary / axis-aligned / nearly axis-aligned orientations, aspect ratios 1e-3..1e3, magnitudes 1e-6..1e6, far offsets, negative anisotropic scales); each solid is queried on a grid+random cloud over its box inflated by 25%, on shells just outside every face (margin, 1e-6, 1e-3, 0.1, 1 x extent), at far points and at the extreme points of the shape found by a pattern search along every axis; a solid is non-trivial if at least one query was contained and >= 20 queries lay outside the box by more than the margin; distinct by hash of the constructor parameters")
 	r.Assume("(b) decides only points outside the box by more than 1e-7*extent_k + 1e-10*(diag+max|coord|) along some axis k")
 	r.Assume("(c) decides only points where the harness-held underlying definition is true at p and at p +- 1e-9*(diag+max|coord|) along every axis and every diagonal (100x that for ConvexPolytope.Solid, whose Mesh() merges vertices closer than 1e-8*magnitude)")
